@@ -7,3 +7,4 @@ import SamVerif.Props.C10
 import SamVerif.Props.C18
 import SamVerif.Props.C17
 import SamVerif.Props.C19
+import SamVerif.Props.C14
